@@ -77,7 +77,7 @@ def parseRet2 : List String → Option (Tx × Tx)
   | _ => none
 
 def isEnv : Tx → Bool
-  | .reg .. | .dep .. | .pen .. | .stake .. => true
+  | .reg .. | .dep .. | .pen .. => true
   | _ => false
 
 def stepC28 (d : DS) (toks : List String) : DS × String :=
